@@ -4,7 +4,9 @@ import json, os, re, subprocess
 VERIF = os.path.dirname(os.path.dirname(os.path.abspath(__file__)))
 REPO = os.environ.get("VERIF_REPO", "/repo")
 EXTRACT = os.path.join(VERIF, "tools/extract/target/release/vextract")
-BUILD = os.path.join(VERIF, "build")
+import hashlib as _hl
+# runs against a private tree ($VERIF_REPO, development only) get their own scratch directory so that several can run at once
+BUILD = os.path.join(VERIF, "build") if os.path.realpath(REPO) == "/repo" else os.path.join(VERIF, "build", "alt_" + _hl.sha1(REPO.encode()).hexdigest()[:8])
 FEATURES = ["suggestions"]
 
 SPEC_KW = r"(requires|ensures|decreases|recommends|default_ensures|no_unwind|opens_invariants|returns)\b"
